@@ -162,6 +162,17 @@ impl StateMachine<'_> {
                 || self.line.starts_with("new file mode "))
     }
 
+    /// The file name repeated in the remembered "diff --git a/NAME b/NAME" line, relative to
+    /// the user's directory if relative paths are in effect (like the names taken from the
+    /// "--- " / "+++ " / "rename " lines), or "" if the line does not repeat one name.
+    pub fn file_name_from_diff_line(&self, diff_line: &str) -> String {
+        let mut name = get_repeated_file_path_from_diff_line(diff_line).unwrap_or_default();
+        if !name.is_empty() {
+            utils::path::relativize_path_maybe(&mut name, self.config);
+        }
+        name
+    }
+
     /// Check for and handle the "deleted file ..."  line.
     pub fn handle_diff_header_file_operation_line(&mut self) -> std::io::Result<bool> {
         if !self.test_diff_header_file_operation_line() {
@@ -170,7 +181,7 @@ impl StateMachine<'_> {
         let mut handled_line = false;
         let (_mode_info, file_event) =
             parse_diff_header_line(&self.line, self.source == Source::GitDiff);
-        let name = get_repeated_file_path_from_diff_line(&self.diff_line).unwrap_or_default();
+        let name = self.file_name_from_diff_line(&self.diff_line);
         match file_event {
             FileEvent::Removed => {
                 self.minus_file = name;
@@ -253,9 +264,7 @@ impl StateMachine<'_> {
                 _ => Cow::from(file),
             };
             let label = format_label(&self.config.file_modified_label);
-            let mut name =
-                get_repeated_file_path_from_diff_line(&self.diff_line).unwrap_or_default();
-            utils::path::relativize_path_maybe(&mut name, self.config);
+            let name = self.file_name_from_diff_line(&self.diff_line);
             let line = format!("{}{}", label, format_file(&name));
             write_generic_diff_header_header_line(
                 &line,
